@@ -224,8 +224,55 @@ def concurrent_schedules():
     return out
 
 
+def start_failure(k):
+    """three watches scheduled on a stopped observer; start() fails for the k-th emitter it starts: the failure of one watch
+    does not affect the others - their emitters stay registered (and are re-used by a later schedule of the same watch)"""
+    out = []
+    started = []
+
+    class Em(ScriptedEmitter):
+        def on_thread_start(self):
+            started.append(self)
+            if len(started) == k:
+                raise Boom("start")
+    obs = BaseObserver(Em)
+    ws = [obs.schedule(H(f"h{i}"), p, recursive=True) for i, p in enumerate(("/p", "/q", "/r"))]
+    before = {e.watch: e for e in obs.emitters}
+    try:
+        obs.start()
+        out.append("start() did not raise although an emitter failed to start")
+    except Boom:
+        pass
+    failed = started[k - 1].watch if len(started) >= k else None
+    after = {e.watch: e for e in obs.emitters}
+    for w in ws:
+        if w == failed:
+            continue
+        if after.get(w) is not before[w]:
+            out.append(f"start() failed for the emitter of {failed.path}: the emitter of the unrelated watch {w.path} is gone from the observer's books ({len(after)} of 3 emitters left)")
+            break
+    if not out:
+        for w in ws:
+            if w != failed:
+                n0 = len(obs.emitters)
+                obs.schedule(H("again"), w.path, recursive=True)
+                if len(obs.emitters) != n0:
+                    out.append(f"re-scheduling {w.path} after the failed start() created a second emitter for it")
+                    break
+    for e in list(before.values()):
+        e.stop()
+    try:
+        obs.stop()
+    except Exception:
+        pass
+    return out
+
+
 def main():
     if REPLAY is not None:
+        if REPLAY.get("kind") == "start-failure":
+            pr = start_failure(REPLAY["k"])
+            replay_result(bool(pr), pr[:3])
         if REPLAY.get("kind") == "concurrent":
             pr = concurrent_schedules()
             replay_result(bool(pr), pr[:3])
@@ -250,6 +297,11 @@ def main():
         pr = run_seq(seq, True)
         if pr:
             bat.fail("C13.registry-running", pr[0], {"seq": [list(o) for o in seq], "alive": True, "problems": pr[:3]}, "BaseObserver")
+    for k in (1, 2, 3):
+        bat.case(("start-failure", k))
+        pr = start_failure(k)
+        if pr:
+            bat.fail("C13.start-failure-affects-other-watches", pr[0], {"kind": "start-failure", "k": k, "problems": pr[:3]}, "BaseObserver.start")
     bat.case("concurrent-schedules")
     pr = concurrent_schedules()
     if pr:
